@@ -3,3 +3,5 @@ import Rp2.Props.C14
 #print axioms Rp2.C14.us_map
 #print axioms Rp2.C14.ie_map
 #print axioms Rp2.C14.map_is_the_propertys
+#print axioms Rp2.C14.model_every_fraction_once_on_its_sheet
+#print axioms Rp2.C14.model_row_values
